@@ -147,6 +147,19 @@ def pathOf (done : List Node) : Nat → Node → List Nat
       | none => [n.v]
       | some p => n.v :: pathOf done k p
 
+/-- the same loop as `search`, returning the whole final state (for the correspondence with the
+    optional hook: `PENDING.size()` and the time-stamp counter at the moment the target node is popped) -/
+def searchSt (P : Problem) : Nat → St → Option (Node × St)
+  | 0, _ => none
+  | fuel + 1, st =>
+    match extractBest P.eps st.pending with
+    | none => none
+    | some (b, rest) =>
+      let bi := st.done.length
+      let st1 : St := { pending := rest, done := st.done ++ [b], time := st.time }
+      if b.v = P.tar then some (b, st1)
+      else searchSt P fuel ((P.succs b.pv b.v).foldl (relax b bi) st1)
+
 /-- the part of `l` behind the last occurrence of `v` (all of `l` if `v` does not occur) -/
 def afterLast (v : Nat) : List Nat → List Nat
   | [] => []
